@@ -49,14 +49,14 @@ type Location struct {
 	CutAt    int // for truncated/reset
 	Chunk    int
 	// probes
-	Common  *big.Int
-	Neg     *big.Int   // a negative serial listed in every version
-	OnlyV   []*big.Int // OnlyV[k] is listed in version k only
-	Never   []*big.Int
-	Fetches int
-	Variant string // "" = authentic; otherwise a forged/odd variant of Versions[Cur] is served
-	vcache  map[string]*CRLSpec
-	pcache  map[string]*x509.Certificate
+	Common    *big.Int
+	Neg       *big.Int   // a negative serial listed in every version
+	OnlyV     []*big.Int // OnlyV[k] is listed in version k only
+	Never     []*big.Int
+	Fetches   int
+	Variant   string // "" = authentic; otherwise a forged/odd variant of Versions[Cur] is served
+	vcache    map[string]*CRLSpec
+	pcache    map[string]*x509.Certificate
 	SlowFirst time.Duration // delay of the first good delivery only
 }
 
@@ -174,8 +174,8 @@ type LocOpts struct {
 	URL      string
 	Issuer   *CA
 	NVers    int
-	Extra    int  // additional filler entries per version
-	Width    int  // serial width in bytes
+	Extra    int // additional filler entries per version
+	Width    int // serial width in bytes
 	PEM      bool
 	CRLF     bool
 	EntryExt bool
